@@ -1219,7 +1219,7 @@ class C36(Prop):
 'annotate_globals, select, drop, key_by, filter, order_by, rename, explode) from range_table; tunion (10%) = t0.union(t1, … '
             'unify=False/True) of 2-4 such pipelines (fields present / absent / of different numeric types / reordered / key field moved '
             'inside the row / clashing / keys differing), checked against the TableUnion rule that all children carry the result\'s row '
-'type and key; tjoin (4%) = l.join(r), most with deliberate name clashes between the two tables (row/row, global/global, global/row, key names) and globals on both sides; index (5%) = keyed lookups right[exprs] / right.index(exprs, all_matches=False|True) used in an annotation of a Table (by its key, by a non-key field, by an expression) or of the rows / cols of a MatrixTable, the right table keyed by a point, by an INTERVAL, or unsuitably (str key, no key), the value used as it is or under hl.len — checked against the engine rule for the emitted TableLeftJoinRightDistinct / TableIntervalJoin(product) / MatrixAnnotateRowsTable(product) / MatrixAnnotateColsTable node (root : right value struct, array of it when product); matrix (11%) = MatrixTable pipelines from range_matrix_table (annotate / select '
+'type and key; tjoin (4%) = l.join(r), most with deliberate name clashes between the two tables (row/row, global/global, global/row, key names) and globals on both sides; ndmatmul (2%) = a @ b on ndarrays of 1-4 dimensions (numeric element types): the rank the front end attaches to NDArrayMatMul against TNDArray.matMulNDims; index (5%) = keyed lookups right[exprs] / right.index(exprs, all_matches=False|True) used in an annotation of a Table (by its key, by a non-key field, by an expression) or of the rows / cols of a MatrixTable, the right table keyed by a point, by an INTERVAL, or unsuitably (str key, no key), the value used as it is or under hl.len — checked against the engine rule for the emitted TableLeftJoinRightDistinct / TableIntervalJoin(product) / MatrixAnnotateRowsTable(product) / MatrixAnnotateColsTable node (root : right value struct, array of it when product); matrix (11%) = MatrixTable pipelines from range_matrix_table (annotate / select '
             'rows / cols / entries / globals, drop, key_cols_by incl. the empty key, key_rows_by, filter_*, union_cols) seen as a matrix '
             'table or through rows() / cols() / entries(), the IR-implied type being the engine\'s typing rules of the Matrix* nodes.  non-trivial = the front end '
             'accepted the program / produced a type; distinct by full case')
@@ -1719,6 +1719,29 @@ class C36(Prop):
         fe, it = self.m_lines(c['view'], x)
         return ('ok', fe, it, (lt, rt, pt))
 
+    def run_matmul(self, c):
+        """a @ b on ndarrays of ranks c['l'], c['r'] -> ('ok', reported dtype text, [(left rank, right rank, rank the front end attached to
+        the NDArrayMatMul node, rank by the engine's rule)]) | ('rejected', why)"""
+        hl = self.hl
+        from hail import ir
+        t = {'f64': hl.tfloat64, 'i32': hl.tint32, 'i64': hl.tint64}[c['t']]
+        try:
+            a = hl.nd.zeros(tuple([2] * c['l']), dtype=t)
+            b = hl.nd.zeros(tuple([2] * c['r']), dtype=t)
+            e = a @ b
+            if c.get('twice'):
+                e = e @ hl.nd.zeros(tuple([2] * c['r']), dtype=t) if e.dtype != t and not isinstance(e.dtype, type(t)) else e
+        except Exception as ex:
+            return ('rejected', type(ex).__name__)
+        nodes = e._ir.search(lambda n: isinstance(n, ir.NDArrayMatMul))
+        out = []
+        for n in nodes:
+            lr, rr = n.children[0].typ.ndim, n.children[1].typ.ndim
+            # TNDArray.matMulNDims (the engine's InferType rule for NDArrayMatMul), transcribed
+            implied = 0 if (lr, rr) == (1, 1) else rr - 1 if lr == 1 else lr - 1 if rr == 1 else lr
+            out.append((lr, rr, n.typ.ndim, implied))
+        return ('ok', e.dtype._parsable_string(), out)
+
     def run_index(self, c):
         """left.annotate(m = use(right.index(exprs, all_matches))) / mt.annotate_rows|cols(…) ->
         ('ok', fe, it, (lt, rt, expr type texts), why-ill-typed | None) | ('rejected', why, (lt, rt, ets)) | ('assert', why, (lt, rt, ets))"""
@@ -2119,6 +2142,10 @@ class C36(Prop):
             if r < 0.30:
                 yield self.gen_index(rng)
                 continue
+            if r < 0.32:
+                # a @ b on ndarrays: vector / matrix / higher-rank operands on either side (the front end broadcasts unequal ranks first)
+                yield {'kind': 'ndmatmul', 'l': rng.choice([1, 1, 2, 3, 4]), 'r': rng.choice([1, 1, 2, 3, 4]), 't': rng.choice(['f64', 'f64', 'i32', 'i64'])}
+                continue
             r = (r - 0.30) / 0.70
             if r < 0.45:
                 yield {'kind': 'expr', 'prog': g.any_expr(rng.choice([1, 2, 2, 3, 3, 4]))}
@@ -2145,6 +2172,11 @@ class C36(Prop):
                 return [f'matrix ||| {c["view"]} ||| ' + ' ; '.join(lt)] * 2
             tail = f' ||| {c["view"]} ||| ' + ' ; '.join(lt) + ' ||| ' + ' ; '.join(rt) + ' ||| ' + (' ; '.join(pt) or 'range')
             return ['munion' + tail, 'munion-ir' + tail]
+        if c['kind'] == 'ndmatmul':
+            r = self.run_matmul(c)
+            if r[0] != 'ok' or not r[2]:
+                return ['echo ||| none']
+            return [f'ndmatmul ||| {lr} ||| {rr}' for lr, rr, _, _ in r[2]]
         if c['kind'] == 'index':
             r = self.run_index(c)
             if r[0] == 'assert':
@@ -2188,6 +2220,11 @@ class C36(Prop):
             if r[0] == 'rejected':
                 return ['none'] * 2
             return [r[1], r[2]]
+        if c['kind'] == 'ndmatmul':
+            r = self.run_matmul(c)
+            if r[0] != 'ok' or not r[2]:
+                return ['none']
+            return [str(implied) for _, _, _, implied in r[2]]
         if c['kind'] == 'index':
             r = self.run_index(c)
             if r[0] == 'assert':
@@ -2265,6 +2302,19 @@ class C36(Prop):
                 return f'MatrixTable reports {fe} but the engine\'s typing rules give the emitted IR {it}: {call}'
             if want != fe:
                 return f'MatrixTable reports {fe} but the API contract gives {want} for {call}'
+            return None
+        if c['kind'] == 'ndmatmul':
+            r = self.run_matmul(c)
+            if r[0] != 'ok':
+                return None
+            for lr, rr, got, implied in r[2]:
+                if got != implied:
+                    return (f'the front end types NDArrayMatMul of ndarrays of {lr} and {rr} dimensions as {got}-dimensional ({r[1]} reported for '
+                            f'a @ b with ranks {c["l"]}, {c["r"]}) but the engine\'s rule (TNDArray.matMulNDims) gives {implied} dimensions')
+            want = c['l'] - 1 if c['r'] == 1 and c['l'] > 1 else c['r'] - 1 if c['l'] == 1 and c['r'] > 1 else 0 if c['l'] == c['r'] == 1 else max(c['l'], c['r'])
+            got = int(re.search(r',(\d+)\]$', r[1]).group(1)) if r[1].startswith('NDArray') else 0
+            if got != want:
+                return f'a @ b with ranks {c["l"]}, {c["r"]} reports {r[1]} but numpy.matmul semantics give {want} dimensions'
             return None
         if c['kind'] == 'index':
             r = self.run_index(c)
@@ -2407,6 +2457,10 @@ class C36(Prop):
                 tags.append('matrix-op:' + op[0] + ('_' + op[1] if op[0] in ('annotate', 'select', 'filter') else '')
                             + ('()' if op[0] in ('key_cols_by', 'key_rows_by') and not op[1] else ''))
             nontrivial = r[0] == 'ok'
+        elif kind == 'ndmatmul':
+            r = self.run_matmul(c)
+            tags += ['ndmatmul:' + r[0], f'ndmatmul-ranks={c["l"]}x{c["r"]}']
+            nontrivial = r[0] == 'ok'
         elif kind == 'index':
             r = self.run_index(c)
             tags += ['index:' + r[0], 'index-src:' + c['src'], 'index-all_matches=%d' % int(c['am']), 'index-len=%d' % int(c['len']),
@@ -2486,7 +2540,7 @@ class C36(Prop):
                         changed = True
                         break
             return cur
-        if c['kind'] == 'tjoin':
+        if c['kind'] in ('tjoin', 'ndmatmul'):
             return c
         if c['kind'] == 'index':
             cur = c
